@@ -266,6 +266,12 @@ Definition cx (k : Z) (v : gval) : gval :=
 (* ---- Read (destination passing) ---- *)
 Definition wrap64 (x : Z) : Z := (x + two63) mod two64 - two63.
 Definition time_of_ns (ns : Z) : timeval := TV (ns / 1000000000) (ns mod 1000000000) 0.
+(* LongCodec.Read: time.UnixMicro / time.UnixMilli for the two timestamp units
+   (no overflow for any int64), time.Unix(0, l*mult) otherwise (wraps) *)
+Definition time_of_units (mult l : Z) : timeval :=
+  if mult =? 1000 then TV (l / 1000000) (l mod 1000000 * 1000) 0
+  else if mult =? 1000000 then TV (l / 1000) (l mod 1000 * 1000000) 0
+  else time_of_ns (wrap64 (l * mult)).
 
 Definition time_string_read (dest : gval) (bs : bytes) : out gval :=
   obind (rd_varint bs) (fun l r =>
@@ -353,7 +359,7 @@ Fixpoint c_read (fuel : nat) (c : codec) (dest : gval) (bs : bytes) {struct c} :
         else if idx =? nn then obind (string_read r) (fun v r' => Done (VStr v) r')
         else Done dest r)
   | CTimeString => time_string_read dest bs
-  | CTimeLong mult => obind (int_read 64 bs) (fun l r => Done (VTime (time_of_ns (wrap64 (l * mult)))) r)
+  | CTimeLong mult => obind (int_read 64 bs) (fun l r => Done (VTime (time_of_units mult l)) r)
   | CDate => obind (int_read 32 bs) (fun l r => Done (VTime (TV (86400 * l) 0 0)) r)
   | CNullInt => obind (int_read 64 bs) (fun v r => Done (VNullW true (VInt v)) r)
   | CNullBool => obind (bool_read bs) (fun v r => Done (VNullW true (VBool v)) r)
